@@ -22,6 +22,45 @@ use serde_json::{json, Value};
 use std::io::{BufRead, Write};
 use std::sync::Arc;
 
+/// bumped at every scheduler step and at every phase boundary of a run: the watchdog of `run` mode ends the process (exit status 98,
+/// a `HANG` line on stderr) when nothing moves for WATCHDOG_SECS although a run is in progress -- a call into the code under test that
+/// never returns outside the scheduler's control (e.g. a spin inside the single-threaded observation at the end of a run)
+pub static PROGRESS: std::sync::atomic::AtomicU64 = std::sync::atomic::AtomicU64::new(0);
+pub static PHASE: std::sync::Mutex<String> = std::sync::Mutex::new(String::new());
+const WATCHDOG_SECS: u64 = 120;
+
+pub fn progress(phase: &str) {
+    PROGRESS.fetch_add(1, std::sync::atomic::Ordering::Relaxed);
+    if !phase.is_empty() {
+        if let Ok(mut p) = PHASE.lock() {
+            p.clear();
+            p.push_str(phase);
+        }
+    }
+}
+
+fn start_watchdog() {
+    std::thread::spawn(|| {
+        let mut last = PROGRESS.load(std::sync::atomic::Ordering::Relaxed);
+        let mut idle = 0u64;
+        loop {
+            std::thread::sleep(std::time::Duration::from_secs(5));
+            let now = PROGRESS.load(std::sync::atomic::Ordering::Relaxed);
+            if now != last {
+                last = now;
+                idle = 0;
+                continue;
+            }
+            idle += 5;
+            if idle >= WATCHDOG_SECS {
+                let phase = PHASE.lock().map(|p| p.clone()).unwrap_or_default();
+                eprintln!("HANG no progress for {idle} s: {phase}");
+                std::process::exit(98);
+            }
+        }
+    });
+}
+
 pub trait Sut: Send + Sync {
     /// executes one API-level operation on behalf of the calling logical thread
     fn exec(&self, ctx: &Ctx, op: &Value) -> Value;
@@ -51,6 +90,7 @@ fn run_once(scn: &Value, strategy: &mut dyn Strategy, record_ops: bool) -> RunOu
     let threads = scn["threads"].as_array().expect("threads");
     let names: Vec<String> = threads.iter().map(|t| t["name"].as_str().unwrap_or("t").to_string()).collect();
     let origin = scn["origin"].as_u64().unwrap_or(0) as u32;
+    progress(&format!("scenario {}: setting up", scn["id"].as_str().unwrap_or("?")));
     reactive_mutiny::verif::set_sequence_origin(origin);
     let sut = suts::make_sut(scn);
     reactive_mutiny::verif::set_sequence_origin(0);
@@ -77,6 +117,7 @@ fn run_once(scn: &Value, strategy: &mut dyn Strategy, record_ops: bool) -> RunOu
     let max_steps = scn["max_steps"].as_u64().unwrap_or(2000);
     let result = sched.run(strategy, max_steps, handles);
     let hard = matches!(result.outcome, Outcome::Stalled | Outcome::StepLimit);
+    progress(&format!("scenario {}: single-threaded observation / teardown at the end of a run (schedule {:?})", scn["id"].as_str().unwrap_or("?"), result.choices));
     let final_obs = if hard {
         // some thread is stuck inside the code under test: its state cannot be touched safely any more
         let mut obs = json!({"hard": true, "len": 0, "drained": [], "free": []});
@@ -90,6 +131,7 @@ fn run_once(scn: &Value, strategy: &mut dyn Strategy, record_ops: bool) -> RunOu
         drop(sut);
         obs
     };
+    progress("between runs");
     RunOut { result, final_obs }
 }
 
@@ -244,6 +286,7 @@ fn main() {
     }
     match args[1].as_str() {
         "run" => {
+            start_watchdog();
             let input = std::fs::File::open(&args[2]).expect("scenarios file");
             let out = std::fs::File::create(&args[3]).expect("trace file");
             let meta = std::fs::File::create(format!("{}.runs", &args[3])).expect("runs file");
